@@ -74,7 +74,9 @@ Definition step (use_cache : bool) (h : heap) (o : op) : heap :=
       let h2 := setv h1 i (mkVar ver (v_ghost v) (v_cache v) (v_precalc v) (v_bc v) (v_dirty v)) in
       apply_bcs h2 i
   | SolveExplicit i ver =>
-      let h1 := if needs_refresh h i then apply_bcs h i else h in
+      (* the input variable is refreshed unconditionally (repair: the dirty flags of a shared BC object can have been reset
+         through another variable) *)
+      let h1 := apply_bcs h i in
       let v := getv h1 i in
       let n := List.length (vars h1) in
       let w := mkVar ver (0, 0) None false (v_bc v) false in
